@@ -228,7 +228,7 @@ func (d *drv) Reset(env *core.Env, b *core.Behaviour) error {
 	if class == "" {
 		class = classes[(salt+variant)%int64(len(classes))]
 	}
-	d.c = newConc(env.Seed*1000003+salt*7919+variant, nk, nv, class, env.Opt("emptyval", "1") == "1")
+	d.c = newConc(env.Seed*1000003+salt*7919+variant, nk, nv, class, env.Opt("emptyval", "1") != "0", env.Opt("emptyval", "1") == "2")
 	d.hbase = 1 + (env.Seed*31+salt*17+variant*5)%4000
 	if b.Meta == nil {
 		b.Meta = map[string]any{}
